@@ -459,13 +459,20 @@ class Queue(Greenlet):
             self.store.remove(id)
 
     def _dequeue(self, id):
+        # The id is claimed before the (blocking) read: a message reported a
+        # second time meanwhile must not be read and attempted once more.
+        if id in self.active_ids:
+            return
+        self.active_ids.add(id)
         try:
             envelope, attempts = self.store.get(id)
         except KeyError:
+            self.active_ids.discard(id)
             return
-        if id not in self.active_ids:
-            self.active_ids.add(id)
-            self._pool_spawn('relay', self._attempt, id, envelope, attempts)
+        except BaseException:
+            self.active_ids.discard(id)
+            raise
+        self._pool_spawn('relay', self._attempt, id, envelope, attempts)
 
     def _check_ready(self, now):
         last_i = 0
